@@ -378,11 +378,15 @@ func traceT1Nums(args []string) error {
 			default:
 				// the three curve forms: the writer picks hvcurveto / vhcurveto by coincidences
 				x1, y1, x2, y2, x3, y3 := cx(), cx(), cx(), cx(), cx(), cx()
-				switch rng.Intn(3) {
+				switch rng.Intn(6) {
 				case 0:
 					y1, x3 = py, x2 // hvcurveto
 				case 1:
 					x1, y3 = px, y2 // vhcurveto
+				case 2:
+					y1, y3 = py, y2 // leaves and arrives horizontally (an S): general form
+				case 3:
+					x1, x3 = px, x2 // leaves and arrives vertically: general form
 				}
 				g.CurveTo(x1, y1, x2, y2, x3, y3)
 				px, py = x3, y3
